@@ -47,6 +47,27 @@ CLAIMED["C02"] = dict(
               "recognition",
     design="3/C02")
 
+CLAIMED["C12"] = dict(
+    text="Decides, on the CFG of Engine.restart and Controller._restartComponent: the budget test dominates every launch "
+         "and its arithmetic implies restarts+1 <= max (linear normalisation of the comparison), defaults 3 / unlimited-with-"
+         "hook, launch only under 'reason in restartHookOn' or SubmissionFailed via reaching definitions of the restart "
+         "context (path-sensitive in the context's value class), counter discipline for restarts and _resubmissionAttempts, "
+         "the three controller guards with the literal cap 5, schema exclusion of Killed/Cancelled, refusal paths of "
+         "ComponentState.restart / RepeatingEngine.restart, and final state after a refused restart. With the counting "
+         "argument on the loop-free restart function this bounds restarts for every exit-reason sequence and hook outcome.",
+    technique="CFG edge-dominance, reaching definitions, value-class product reachability, linear comparison "
+              "normalisation, who-may-write",
+    design="3/C12")
+CLAIMED["C13"] = dict(
+    text="Decides the structural clauses of the repeating-observer protocol: stop decision guarded by a pre-launch "
+         "snapshot of the producers-finished flag (never the live flag), every pass through the decision block kills or "
+         "uses a retry (bounded attempts), task generation only when able to consume and with new output, notification "
+         "wiring on every stageIn path, poll fires when producers are finished, the monitor runs one last action after "
+         "cancel, exit reason only after cancel. The timing quantifier (where the notification lands between polls, NFS "
+         "latency) cannot be bounded statically and is not claimed.",
+    technique="CFG edge-dominance and must-pass-through, reaching definitions of the snapshot, who-may-write",
+    design="3/C13")
+
 NOT_APPLICABLE = {
     "C20": "arithmetic over floating-point stage weights (sums, int(w*1000) truncation, fallback split) for every "
            "stage count: no structural clause is a necessary condition; needs numeric exploration or a solver, i.e. "
